@@ -22,12 +22,13 @@ from ..core import Report, Violation, collect, out_of_time, pmap, seed
 from ..rulekit import RULES, family_B, literal_values, skel_json, skel_unjson, test_json_inputs, to_skel
 from ..symx import Ctx, Stats, Unsupported, explore, frac_of
 from ..trees import ConcreteProvider, audit, build, enum_upto, kind, preorder, root_of, sig, sk_size, sk_str, slot_roles, variables_of
-from ..zeval import Undefined, ceval, close, powr_axioms, var, zeval_top
+from ..zeval import Undefined, ceval, close, powr_axioms, uses_uf, var, zeval_top
 from . import value as V
 from .printer import ENVS, model_env
 
 Problem = Tuple[str, str]
 EQ_CACHE: Dict[Tuple[str, str], Any] = {}
+UF_FALLBACKS = [0]
 
 
 def state_key(root: Any) -> str:
@@ -70,6 +71,10 @@ def equivalent(a: Any, b: Any, ctx: Optional[Ctx], env: Optional[Dict[str, Any]]
             d = ta[1] - tb[1]
             scale = z3.If(ta[1] >= 0, ta[1], -ta[1]) * z3.RealVal("1/1000000000000")
             r, m = ctx.query_lazy(dom + [z3.Or(d > scale, -d > scale)], ax)
+        if r == "sat" and (uses_uf(ta[1]) or uses_uf(tb[1]) or (ta[0] == "eq" and (uses_uf(ta[2]) or uses_uf(tb[2])))):
+            # an uninterpreted power (non-integer exponent) is free to take any value: a 'sat' that rests on it proves
+            # nothing.  Decided at concrete assignments instead (counted as concrete fallback).
+            return "uf", m
         return {"unsat": "same", "sat": "differ", "unknown": "unknown"}[r], m
     assert env is not None
     try:
@@ -107,6 +112,25 @@ def check_state(start: Any, state: Any, ctx: Optional[Ctx], envs: List[Dict[str,
         if key not in EQ_CACHE:
             r1, m1 = equivalent(start, state, ctx, None)
             r2, m2 = equivalent(state, back, ctx, None)
+            if "uf" in (r1, r2):
+                names = variables_of(start)
+                cenvs = ([model_env(m1 or m2, names)] if (m1 or m2) is not None else []) + ENVS
+
+                def conc(a: Any, b: Any) -> str:
+                    out = "same"
+                    for env in cenvs:
+                        try:
+                            if equivalent(a, b, None, env)[0] == "differ":
+                                out = "differ"
+                        except Exception:
+                            pass
+                    return out
+
+                if r1 == "uf":
+                    r1, m1 = conc(start, state), None
+                if r2 == "uf":
+                    r2, m2 = conc(state, back), None
+                UF_FALLBACKS[0] += 1
             EQ_CACHE[key] = (r1, r2, m1 if r1 == "differ" else (m2 if r2 == "differ" else None))
         r1, r2, m = EQ_CACHE[key]
         model = m
@@ -242,6 +266,7 @@ def worker(item: Any) -> Dict[str, Any]:
     part["cases"] = 1
     st: Stats = part["stats"]
     EQ_CACHE.clear()
+    UF_FALLBACKS[0] = 0
 
     def builder() -> Any:
         return build(sk, ConcreteProvider(payload))
@@ -292,6 +317,7 @@ def worker(item: Any) -> Dict[str, Any]:
             part["engine_mismatch"] += 1
             part["mismatch_samples"].append(f"{label} {trace}: {real[0][1][:200]}")
     part["reach"][mode] = 1
+    part["fallback_concrete"] = part.get("fallback_concrete", 0) + UF_FALLBACKS[0]
     uniq = {}
     for v in part["violations"]:
         uniq.setdefault(v.ident(), v)
@@ -457,7 +483,7 @@ def cross(rep: Report, tier: str, owner: str) -> None:
     """The two-step sequences of C09 (long-lived rule instances; cloned, asked and in-place modes), run inside another
     property's check: only the fault kinds that property's statement names are reported, under its id."""
     items = []
-    for lab, sk, vals in starts(tier):
+    for lab, sk, vals in starts("quick"):  # both tiers: the larger start family of the thorough tier is C09's own
         is_eq = sk[0] == "eq"
         if (owner == "C01" and is_eq) or (owner == "C02" and not is_eq):
             continue
@@ -473,4 +499,4 @@ def cross(rep: Report, tier: str, owner: str) -> None:
     rep.functions += ["BaseRule.find_nodes / can_apply_to / apply_to on long-lived rule instances (2-step sequences)"]
     random.Random(seed()).shuffle(items)
     items.sort(key=lambda it: -sk_size(it[2]))
-    collect(rep, pmap(worker, items, budget_s=240 if tier == "quick" else 480, chunk=2))
+    collect(rep, pmap(worker, items, budget_s=240 if tier == "quick" else 360, chunk=2))
